@@ -316,3 +316,6 @@ func vc_C05_orientation() {
 // closedness of octree meshes also needs the octree to cover the (padded) box
 // and to hand every cell the values of its own corners: registered from C07.
 func vc_C05_octree_covers_box() { vc_C07_octree_covers_box() }
+
+// C06 (normals agree with the gradient direction): the orientation certificate per configuration is the same obligation.
+func vc_C06_orientation() { vc_C05_orientation() }
